@@ -51,6 +51,7 @@ class Analyzer:
     def __init__(self, base, chk):
         self.base, self.chk, self.prog = base, chk, base.prog
         self.shapes = {}      # fname -> return shape learnt from its own analysis
+        self.inline = set(INLINE)   # functions executed inside their callers (grows: context-sensitive re-analysis)
 
     # ---- symbolic inputs from types
     def sym_cells(self, k, t, name):
@@ -208,7 +209,7 @@ class Analyzer:
         ex.leak_mode = True
         chk.functions[fname] = {"mode": "leakage (BV, callees summarised as leak-free)", "ssa_instrs": sum(len(b["instrs"]) for b in f["blocks"])}
         for c in self.todo_set:
-            if c != fname and c not in INLINE and is_repo(prog, c) and not prog.fn(c).get("external"):
+            if c != fname and c not in self.inline and is_repo(prog, c) and not prog.fn(c).get("external"):
                 ex.summaries[c] = self.summary_for(k, c)
         # assembly-backed feMul/feSquare: shape checked statically, summarised here
         for nm in ("feMul", "feSquare"):
@@ -233,7 +234,7 @@ class Analyzer:
                 if fc is None or fc.get("external"):
                     if c not in ex.summaries and not c.endswith(".init"):
                         seen_ext.add(c)
-                elif c in INLINE or not is_repo(prog, c):
+                elif c in self.inline or not is_repo(prog, c):
                     work.append(c)
         for c in seen_ext:
             def extsum(ex_, path, a, c=c):
@@ -272,8 +273,7 @@ class Analyzer:
                     shape = sh
         self.shapes[fname] = shape
         errs = [p for p in paths if p.outcome[0] == "error" and not p.dstate.get("extcalls")]
-        if errs:
-            chk.note_inconclusive("%s: engine could not execute a path: %s" % (fname, errs[0].outcome[1][:160]))
+        engine_errors = ["%s: engine could not execute a path: %s" % (fname, errs[0].outcome[1][:160])] if errs else []
         # ---- leak sites
         sites = {}
         for p in paths:
@@ -309,7 +309,7 @@ class Analyzer:
             if not pos:
                 pos = "%s#block%d" % (sfn.split(".")[-1], blk)
             res.append(dict(kind=kind, fn=sfn, pos=pos, verdict=verdict, witness=witness, seconds=time.time() - tq, block=blk))
-        return dict(fname=fname, paths=len(paths), sites=res, seconds=time.time() - t0, panics=[p.outcome for p in paths if p.outcome[0] == "panic"][:2])
+        return dict(fname=fname, paths=len(paths), sites=res, seconds=time.time() - t0, engine_errors=engine_errors, panics=[p.outcome for p in paths if p.outcome[0] == "panic"][:2])
 
 
 def k_fresh(tag, cnt, w):
@@ -422,7 +422,7 @@ def run(chk):
     results = []
     t0 = time.time()
     for n in order:
-        if n in INLINE:
+        if n in an.inline:
             continue
         try:
             r = an.analyse(n, None)
@@ -434,7 +434,55 @@ def run(chk):
         if r is None:
             continue
         results.append(r)
+    # context-sensitive refinement: a helper that takes plain integers / booleans is first analysed with those parameters
+    # secret (worst case).  If that reports a leak and the helper is not an API entry point, the verdict depends on what
+    # its callers pass (a public loop counter or a secret digit?): execute it inline in every caller instead and take
+    # the verdicts from there (sound: every constant-time call path to it is then analysed with its real arguments).
+    roots = set(API)
+    ctx_inlined = {}
+    for rnd in range(3):
+        cand = []
+        for r in results:
+            f = prog.fn(r["fname"])
+            basic = any(prog.T(p["type"]).u.k == "basic" for p in f["params"])
+            leaky = any(s_["verdict"] != "unsat" and not (r["fname"] in VALIDITY and s_["kind"] == "branch") for s_ in r["sites"])
+            if basic and (leaky or r["engine_errors"]) and r["fname"] not in roots and r["fname"] not in an.inline:
+                cand.append(r["fname"])
+        if not cand:
+            break
+        an.inline.update(cand)
+
+        def inlined_in(n):
+            acc, work = set(), [n]
+            while work:
+                x = work.pop()
+                for c in callees(prog, x):
+                    if c in an.inline and c not in acc:
+                        acc.add(c)
+                        work.append(c)
+            return acc
+        redo = [n for n in order if n not in an.inline and n in an.todo_set and inlined_in(n) & set(cand)]
+        if not redo:
+            # no constant-time caller: keep the stand-alone verdicts
+            an.inline.difference_update(cand)
+            break
+        results = [r for r in results if r["fname"] not in cand and r["fname"] not in redo]
+        for c in cand:
+            ctx_inlined[c] = [n for n in redo if c in inlined_in(n)]
+        for n in redo:
+            try:
+                r = an.analyse(n, None)
+            except Exception as e:
+                chk.note_inconclusive("leak analysis of %s (with %s inline): engine error %r" % (n, cand, e))
+                continue
+            if r is not None:
+                results.append(r)
+    if ctx_inlined:
+        chk.extra["context_sensitive_reanalysis"] = {k_.replace("filippo.io/edwards25519", "ed"): [x.replace("filippo.io/edwards25519", "ed") for x in v] for k_, v in ctx_inlined.items()}
     nsites = 0
+    for r in results:
+        for m in r["engine_errors"]:
+            chk.note_inconclusive(m)
     for r in results:
         fname = r["fname"]
         label = fname.replace("filippo.io/edwards25519", "ed")
